@@ -37,8 +37,8 @@ theorem C01_inline_xor_deferred (w w' : World) (op k : Nat) (kind : OpKind) (com
     · cases hs
     · rename_i hcl
       split at hs
-      · rename_i hk; cases hs; exact ⟨by simpa using hcl, by simp [hk]⟩
-      · rename_i hk; cases hs; exact ⟨by simpa using hcl, by simp [hk]⟩
+      · rename_i hk; cases hs; exact ⟨(by simpa using hcl : o.closed = false ∧ ¬o.kind = ObjKind.timer).1, by simp [hk]⟩
+      · rename_i hk; cases hs; exact ⟨(by simpa using hcl : o.closed = false ∧ ¬o.kind = ObjKind.timer).1, by simp [hk]⟩
 
 /-- The inline callback can be delivered only once per start call: after it, the frame is marked completed and the
 model has no second `enter` transition for it. -/
@@ -64,28 +64,30 @@ theorem C01_dispatch_clears_interest (w w' : World) (op : Nat) (rest : List K) (
   have hp : (info.kind == OpKind.post) = false := by simpa using hio.2
   simp only [hp, hio.1, Bool.false_eq_true, if_false] at h
   split at h
-  · rename_i hr
-    split at h
-    · rename_i hc
-      cases h
-      have hev : o.evR = true := by simp at hc; exact hc.1
-      refine ⟨{ o with evR := false, registered := o.evW }, ?_, by simp [hr]⟩
-      unfold delRead
-      simp only [hev, if_true]
-      rw [← hid]
-      exact getObj_setObj_self _ o _ hg' rfl
-    · cases h
-  · rename_i hr
-    split at h
-    · rename_i hc
-      cases h
-      have hev : o.evW = true := by simp at hc; exact hc.1
-      refine ⟨{ o with evW := false, registered := o.evR }, ?_, by simp [hr]⟩
-      unfold delWrite
-      simp only [hev, if_true]
-      rw [← hid]
-      exact getObj_setObj_self _ o _ hg' rfl
-    · cases h
+  · cases h
+  · split at h
+    · rename_i hr
+      split at h
+      · rename_i hc
+        cases h
+        have hev : o.evR = true := by simp at hc; exact hc.1
+        refine ⟨{ o with evR := false, registered := o.evW }, ?_, by simp [hr]⟩
+        unfold delRead
+        simp only [hev, if_true]
+        rw [← hid]
+        exact getObj_setObj_self _ o _ hg' rfl
+      · cases h
+    · rename_i hr
+      split at h
+      · rename_i hc
+        cases h
+        have hev : o.evW = true := by simp at hc; exact hc.1
+        refine ⟨{ o with evW := false, registered := o.evR }, ?_, by simp [hr]⟩
+        unfold delWrite
+        simp only [hev, if_true]
+        rw [← hid]
+        exact getObj_setObj_self _ o _ hg' rfl
+      · cases h
 
 /-- **Cancel does not return while an interest is registered.** `Cancel` can only return (the model has a `ret`
 transition) when neither the read nor the write interest it is responsible for is still set. -/
@@ -139,28 +141,7 @@ theorem C01_close_silences (w : World) (o : Obj) (hn : (ids w.objs).Nodup) (hg :
   unfold closeObj
   have hk' : (o.kind == ObjKind.timer) = false := by simpa using hk
   simp only [hk', Bool.false_eq_true, if_false]
-  -- first the read interest, then the write interest, then the flag
-  have g1 : ∃ o1, getObj (delRead w o) o.id = some o1 ∧ o1.id = o.id ∧ o1.evR = false := by
-    unfold delRead
-    by_cases h : o.evR
-    · simp only [h, if_true]
-      exact ⟨_, getObj_setObj_self _ o _ (show getObj { w with pending := w.pending - 1 } o.id = some o from hg) rfl, rfl, rfl⟩
-    · simp only [h]; exact ⟨o, hg, rfl, by simpa using h⟩
-  obtain ⟨o1, hg1, hid1, hr1⟩ := g1
-  have hg1' : getObj (delRead w o) o1.id = some o1 := by rw [hid1]; exact hg1
-  have g2 : ∃ o2, getObj (delWrite (delRead w o) o1) o.id = some o2 ∧ o2.id = o.id ∧ o2.evR = false ∧ o2.evW = false := by
-    unfold delWrite
-    by_cases h : o1.evW
-    · simp only [h, if_true]
-      refine ⟨{ o1 with evW := false, registered := o1.evR }, ?_, hid1, hr1, rfl⟩
-      rw [← hid1]
-      exact getObj_setObj_self _ o1 _ (show getObj { (delRead w o) with pending := (delRead w o).pending - 1 } o1.id = some o1 from hg1') rfl
-    · simp only [h]; exact ⟨o1, hg1, hid1, hr1, by simpa using h⟩
-  obtain ⟨o2, hg2, hid2, r2, w2⟩ := g2
-  simp only [hg1, hg2, Option.getD_some]
-  refine ⟨{ o2 with closed := true, registered := false }, ?_, r2, w2, rfl, rfl⟩
-  rw [← hid2]
-  exact getObj_setObj_self _ o2 _ (by rw [hid2]; exact hg2) rfl
+  exact ⟨_, getObj_setObj_self _ o _ hg rfl, rfl, rfl, rfl, rfl⟩
 
 /-- A deferred start on a closed object is answered immediately (with end-of-file) and registers nothing. -/
 theorem C01_start_on_closed_not_registered (w w' : World) (op k : Nat) (kind : OpKind) (rest : List K) (r : Ret) (o : Obj)
